@@ -116,6 +116,13 @@ def templates(pyver, tier, rng=None):
                 "".join("    %d,\n" % (i + 5000) for i in range(n)) + ")\nu = f(\n 'a',\n 'b',\n *t)\n")
         for d in (126, 127, 128, 129, 255):
             add("fold-tuple-%d-gapline-%d" % (n, d), "t = (\n" + "".join("    %d," % i + "\n" * (d if i == n // 2 else 1) for i in range(n)) + ")\nu = 1\n")
+    # default values over several lines: the peephole pass (<=3.9) folds them into one constant tuple; with >255 constants
+    # before it the folded LOAD_CONST needs EXTENDED_ARG and a line-table entry lands inside that instruction (F-C01a)
+    for pre in (250, 254, 255, 256, 257, 300):
+        add("defaults-multiline-after-%d-consts" % pre,
+            "a0 = None; a1 = (); a2 = 's'; a3 = 1.5\nx = [" + ", ".join(str(i + 1000) for i in range(pre)) + "]\ndef f(a, b=None, c=(),\n      d=(), e='s',\n      g=1.5):\n    pass\n")
+        add("kwdefaults-multiline-after-%d-consts" % pre,
+            "a0 = None; a1 = (); a2 = 'k1'; a3 = 'k2'\nx = [" + ", ".join(str(i + 1000) for i in range(pre)) + "]\ny = g(\n 'k1',\n 'k2',\n *x)\nz = (a0,\n None, (),\n 'k1')\n")
     add("fold-binop-multiline", "x = (1 +\n     2 +\n     3)\ny = ('a'\n     'b')\nz = -(\n 1)\n")
     add("fold-in-set", "def f(x):\n    return x in {\n 1,\n 2,\n 3}\n")
     add("fold-tuple-index", "x = (1, 2, 3)[\n 1]\n")
